@@ -400,6 +400,26 @@ impl Offer {
         match self.mode {
             Mode::State => {
                 compare("offer-state", &format!("replica {ri} ({when})"), &d, model)?;
+                // what the replica holds must be the same through the key-ordered access path and
+                // through point lookups (a held entry that one of them cannot see is not "held")
+                let w = crate::world::world();
+                let pd = PRIMARY.with(|c| c.get());
+                let by_key: std::collections::BTreeSet<Vec<u8>> = store
+                    .get_many(w.doc_id(pd), iroh_docs::store::Query::all().include_empty().sort_by(iroh_docs::store::SortBy::KeyAuthor, iroh_docs::store::SortDirection::Asc))
+                    .map_err(|e| harness(format!("get_many: {e:#}")))?
+                    .map(|r| r.map(|e| postcard::to_stdvec(&e).unwrap_or_default()).map_err(|e| harness(format!("{e:#}"))))
+                    .collect::<Res<_>>()?;
+                let want: std::collections::BTreeSet<Vec<u8>> = model.0.values().map(|e| postcard::to_stdvec(&e.signed()).unwrap_or_default()).collect();
+                if by_key != want {
+                    let kind = if by_key.len() < want.len() { "missing" } else { "extra" };
+                    return Err(Violation::new(format!("offer-state/index-{kind}"), format!("replica {ri} ({when}): the key-ordered query returns {} entries, the replica holds {}: {}", by_key.len(), want.len(), model.short())));
+                }
+                for e in model.0.values() {
+                    let got = store.get_exact(w.doc_id(pd), w.author_id(e.a), &e.k, true).map_err(|e| harness(format!("get_exact: {e:#}")))?;
+                    if got.as_ref() != Some(&e.signed()) {
+                        return Err(Violation::new("offer-state/lookup", format!("replica {ri} ({when}): the point lookup of held entry {} returns {}", e.short(), if got.is_some() { "another entry" } else { "nothing" })));
+                    }
+                }
             }
             Mode::Heads => {
                 // heads must equal the greatest timestamp per author among the entries *held*
